@@ -1581,6 +1581,12 @@ package stun
 //@   assigns everything, gmap(held), ghost(now_last), ghost(wr_n), gmapa(wr_data), gmap(wr_len), gmap(wr_errt), gmap(wr_errv), ghost(ag_n), gmap(ag_op), gmapa(ag_id), gmap(ag_dl), gmap(ag_errt), gmap(ag_errv), ghost(ev_n), gmapa(ev_tid), gmap(ev_errt), gmap(ev_errv), gmap(ev_msg), gmap(ev_h)
 //@   allocates
 //@   ensures c.c == old(c.c) && c.a == old(c.a) && region(m.Raw) == old(region(m.Raw)) && cap(m.Raw) == old(cap(m.Raw)) && off(m.Raw) == old(off(m.Raw))
+// the reader stops for exactly two reasons: the stop channel, or the agent reporting that it is closed. The only error
+// it ever classifies is therefore the one returned by Process, against ErrAgentClosed (a read error is not a reason to stop)
+//@ func (*Client).readUntilClosed->errors.Is(err, target)
+//@   requires target == ErrAgentClosed && err == pErr
+//@   pure
+//@   ensures result <==> err_is(errtag(err), errval(err), errtag(target), errval(target))
 //@ func (*Client).readUntilClosed(c)
 //@   safety C12 C15
 //@   props C12
